@@ -31,6 +31,9 @@ type Conn struct {
 	Calls   []Call
 	seq     int
 	Blocked bool // a Write never completes unless the write deadline passes (a stalled peer on a synchronous transport)
+	// YieldAfterWrite adds a scheduling point between the delivery of the bytes to the peer and the return of Write
+	// (the peer may react before the writer runs on)
+	YieldAfterWrite bool
 }
 
 func New() *Conn { return &Conn{} }
@@ -80,6 +83,9 @@ func (c *Conn) Write(p []byte) (int, error) {
 		return 0, os.ErrDeadlineExceeded
 	}
 	c.Out = append(c.Out, p...)
+	if c.YieldAfterWrite {
+		vs.Yield("conn.Write delivered")
+	}
 	return len(p), nil
 }
 
